@@ -123,5 +123,4 @@ def run(ctx):
     ctx.assumptions += [
         "numpy shuffle = uniform permutation (enumerated as all n! permutations)",
         "urn model of sentinel shuffle (Model/Perm.v header)",
-        "NoDup of the enumerated list forders (no order listed twice) is validated against brute force on the enumerated trees, not yet proved",
     ]
